@@ -10,7 +10,8 @@
            "barrier" : every child waits K times on barrier 1 (NT participants)
            "jc"      : children 1..ND decrement join counter 1 (ND decrements), the others wait on it
            "uncond"  : single-slot mailbox over uncond 1 (documented protocol): tag 1 puts K items, tag 2 gets K
-           "once"    : every child calls once(1); the init routine yields *)
+           "once"    : every child calls once(1); the init routine yields
+           "felock"  : odd tags produce K items through full/empty lock 1, even tags consume K items *)
 EXTENDS Myth
 
 CONSTANTS SCN, NT, K, ND, BCAST
@@ -95,10 +96,20 @@ Once(w, t, tag) ==
   ELSE IF upc[tag].i < K THEN UOnceCall(w, tag, O1) /\ Adv(tag, 0, 1) /\ UNCHANGED env
        ELSE UBodyEnd(w, tag, 1000 + tag, 0) /\ Same
 
+\* full/empty lock 1 built from mutex M1 and conditions C1 (status 0) / C2 (status 1):
+\* odd tags produce (wait for empty, mark full), even tags consume (wait for full, mark empty)
+Felock(w, t, tag) ==
+  LET prod == tag % 2 = 1
+      want == IF prod THEN 0 ELSE 1 IN
+  IF upc[tag].k = 0
+  THEN IF upc[tag].i < K THEN UFeWaitLockCall(w, tag, 1, want, M1, IF want = 0 THEN C1 ELSE C2) /\ Adv(tag, 1, 0) /\ UNCHANGED env
+       ELSE UBodyEnd(w, tag, 1000 + tag, 0) /\ Same
+  ELSE UFeMarkCall(w, tag, 1, 1 - want, M1, IF want = 0 THEN C2 ELSE C1) /\ Adv(tag, 0, 1) /\ UNCHANGED env
+
 Scenario(w, t, tag) ==
   CASE SCN = "mutex" -> Mutex(w, t, tag) [] SCN = "cond" -> Cond(w, t, tag) [] SCN = "gate" -> Gate(w, t, tag)
     [] SCN = "barrier" -> Barrier(w, t, tag) [] SCN = "jc" -> Jc(w, t, tag) [] SCN = "uncond" -> Uncond(w, t, tag)
-    [] SCN = "once" -> Once(w, t, tag)
+    [] SCN = "once" -> Once(w, t, tag) [] SCN = "felock" -> Felock(w, t, tag)
 
 UserStep(w) ==
   \E t \in D : At(w, t, "user") /\
@@ -154,6 +165,8 @@ LibStep(w) ==
      \/ \E ok \in {0, 1} : OnCas(w, O1, ok)
      \/ UOnceBody(w, O1) \/ OnDone(w, O1)
      \/ \E t \in Tag : UOnceRet(w, t, O1)
+     \/ \E st, want \in {0, 1} : FeChk(w, 1, st, want) \/ FeMark(w, 1, st)
+     \/ \E t \in Tag, st \in {0, 1} : UFeWaitLockRet(w, t, 1, st) \/ UFeMarkRet(w, t, 1, st)
 
 Finished == \E w \in W : cur[w] # 0 /\ th[cur[w]].tag = 0 /\ th[cur[w]].pc.k = "done"
 AllReaped == \A t \in Tag : t # 0 /\ tg[t].hs # "none" => tg[t].reaped = 1
